@@ -9,7 +9,7 @@ from datetime import datetime, timedelta, timezone
 from .. import corpus, monitors, spec
 from ..build import BuildError
 from ..core import Result
-from ..values import (BP, NAN, REF, Gen, attr_names, canon, default_of, diff_signature, diff_trees, du_to_td,
+from ..values import (BP, NAN, REF, is_negzero, Gen, attr_names, canon, default_of, diff_signature, diff_trees, du_to_td,
                       tree_from_json, tree_to_json, ts_to_dt, value_class)
 
 PROP = "C06"
@@ -445,7 +445,7 @@ def _is_default(fi, v) -> str:
         return "default" if v == d and v != NAN else "nondefault"
     if fi.kind == "message":
         return "default" if not v else "nondefault"
-    return "default" if (v == default_of(fi) and v != NAN) else "nondefault"
+    return "default" if (v == default_of(fi) and v != NAN and not is_negzero(v)) else "nondefault"
 
 
 def replay(w):
